@@ -35,10 +35,12 @@ def batch_case(inp):
     runs = []
     for cfg in inp["cfgs"]:
         br = BatchReactor(list(entries), strategy=inp["strategy"], explicit_h=False, implicit_temp=True, enable_logging=False,
-                          cache_enabled=cfg["cache"], cache_maxsize=cfg["maxsize"], entry_n_jobs=cfg["jobs"])
+                          cache_enabled=cfg["cache"], cache_maxsize=cfg["maxsize"], entry_n_jobs=cfg["jobs"],
+                          rule_n_jobs=cfg.get("rule_jobs", 1), parallel_rules=bool(cfg.get("parallel_rules", False)),
+                          allow_nested=bool(cfg.get("nested", False)))
         out = br.fit(rule_graphs, invert=inp["invert"])
         key = "syn_bw" if inp["invert"] else "syn_fw"
-        runs.append({"cfg": "cache=%s,maxsize=%d,jobs=%d" % (cfg["cache"], cfg["maxsize"], cfg["jobs"]),
+        runs.append({"cfg": "cache=%s,maxsize=%d,jobs=%d,rule_jobs=%d,parallel_rules=%s" % (cfg["cache"], cfg["maxsize"], cfg["jobs"], cfg.get("rule_jobs", 1), bool(cfg.get("parallel_rules", False))),
                      "out": [list(o.get(key, [])) for o in out]})
     return {"kind": "batch", "entries": ents, "runs": runs}
 
@@ -56,7 +58,7 @@ def same_case(inp):
     if inp["what"] == "balance-check":
         from synkit.Chem.Reaction.balance_check import BalanceReactionCheck
         data = inp["data"]
-        f = lambda t: [[str(d["reactions"]), bool(d["balanced"])] for part in t for d in part]
+        f = lambda t: [[[str(d.get("row", "")), str(d["reactions"]), bool(d["balanced"])] for d in part] for part in t]
         a = BalanceReactionCheck(n_jobs=1).dicts_balance_check(data, rsmi_column="reactions")
         b = BalanceReactionCheck(n_jobs=4).dicts_balance_check(data, rsmi_column="reactions")
         return {"kind": "same", "what": inp["what"], "a": f(a), "b": f(b)}
@@ -168,8 +170,12 @@ def batches(rng, n_batches, size, quick):
         pool = rng.sample(SUBSTRATES, rng.randint(3, 6)) + rng.sample(LOOKALIKES, rng.randint(2, 5))
         entries = [rng.choice(pool) for _ in range(size)]          # many repeats of few look-alike substrates: addresses get recycled
         cfgs = [{"cache": True, "maxsize": 32768, "jobs": 1}, {"cache": False, "maxsize": 32768, "jobs": 1},
-                {"cache": True, "maxsize": rng.choice([1, 2, 3]), "jobs": 1}, {"cache": True, "maxsize": 32768, "jobs": rng.choice([2, 3, 4] if quick else [2, 4, 8])}]
-        out.append({"rules": rng.sample(tb, rng.randint(1, 3)), "entries": entries, "invert": False, "strategy": rng.choice(["all", "comp", "bt"]),
+                {"cache": True, "maxsize": rng.choice([1, 2, 3]), "jobs": 1}, {"cache": True, "maxsize": 32768, "jobs": rng.choice([2, 3, 4] if quick else [2, 4, 8])},
+                {"cache": True, "maxsize": 32768, "jobs": 1, "rule_jobs": rng.choice([2, 3]), "parallel_rules": True}]
+        rules = rng.sample(tb, rng.randint(1, 3))
+        if rng.random() < 0.5:
+            rules.append(rng.choice(rules))        # the same rule twice: its results must still be reported once
+        out.append({"rules": rules, "entries": entries, "invert": False, "strategy": rng.choice(["all", "comp", "bt"]),
                     "cfgs": cfgs})
     return out
 
@@ -209,6 +215,8 @@ def run(ctx: core.Ctx) -> None:
             same.append({"what": "aam-validation", "data": data, "ignore_aromaticity": ia, "ignore_tautomers": True, "method": rng.choice(["RC", "ITS"])})
             same.append({"what": "aam-validation", "data": small, "ignore_aromaticity": ia, "ignore_tautomers": False, "method": "RC"})
         bal = [{"reactions": s} for s in sample] + [{"reactions": s.split(">>")[0] + ">>" + s.split(">>")[1].split(".")[0]} for s in sample[:8]]
+        bal += [dict(rng.choice(bal)) for _ in range(10)]           # the same reaction in several rows ...
+        bal = [dict(d, row="row%d" % k) for k, d in enumerate(bal)]  # ... each row with its own other fields
         same.append({"what": "balance-check", "data": bal})
     tb = {t["name"]: t["rsmi"] for t in reactlib.textbook()}
     nets = [([tb["esterification-explicit-H"], tb["imine-formation-explicit-H"]], ["CCO", "CC(=O)O", "CO", "CN", "CC=O", "OCCO"]),
@@ -221,6 +229,13 @@ def run(ctx: core.Ctx) -> None:
         for w in ((2, 3, 4, 7) if q else (2, 3, 4, 5, 6, 7, 8)):
             same.append({"what": "network-expansion", "rules": rules, "seeds": seeds, "repeats": 2, "workers": w})
     core.run_stage(ctx, S("serial-versus-parallel", same_case, same))
+    # batched clustering versus one-shot clustering (machinery of C13: every batch size must give the isomorphism partition)
+    from harness.props import c13
+    cl = []
+    for _ in range(120 if q else 2500):
+        cl.append({"lib": rng.choice([[], [], [{"cls": 4, "iso": 2}]]), "items": [rng.randint(1, 3) for _ in range(rng.randint(5, 12))],
+                   "attr": rng.choice(["shared", "shared", "perclass"]), "batch_sizes": [0, 1, 2, 3, 5], "seed": rng.randrange(10 ** 9), "share": rng.random() < 0.3})
+    core.run_stage(ctx, c13.S("batched-versus-one-shot-clustering", cl))
     expansion_stages(ctx, nets)
 
 
@@ -265,6 +280,9 @@ def expansion_stages(ctx, nets):
 
 
 def replay(ctx, data):
+    if data["stage"].startswith("batched-versus-one-shot"):
+        from harness.props import c13
+        return core.run_stage(ctx, c13.S(data["stage"], [data["input"]]))
     if data["stage"].startswith("expansion"):
         fn = replay_case if "replayed" in data["stage"] else history_case
         core.run_stage(ctx, X(data["stage"], fn, [data["input"]], False))
